@@ -27,6 +27,8 @@ var (
 	typesOnce sync.Once
 	allTypes  []*typeInfo
 	typesErr  error
+	// user structs with an enum wire type the library may refuse (int16, int64): refused at initialization / accepted
+	refusedUsers, acceptedRare int
 )
 
 // types returns every distinct shipped message type and every generated user struct.
@@ -47,6 +49,13 @@ func types(t testing.TB) []*typeInfo {
 			}
 			ti.lay = lay
 			rw := &message.ReadWriter{Message: m}
+			if err := rw.Initialize(); err != nil && user != nil && user.MayRefuse {
+				refusedUsers++ // refused at initialization: nothing of it can be encoded differently later
+				return
+			}
+			if user != nil && user.MayRefuse {
+				acceptedRare++
+			}
 			if err := rw.Initialize(); err != nil {
 				typesErr = fmt.Errorf("message %s: Initialize failed: %v", ty, err)
 				return
